@@ -31,6 +31,25 @@ theorem listMax_hom (hbot : E negInf = 0) (hlt : ∀ x y : β, x < y ↔ E x < E
       · rw [if_pos hxy, if_pos ((hlt x y).mp hxy)]
       · rw [if_neg hxy, if_neg (fun h => hxy ((hlt x y).mpr h))]
 
+/-- `np.argmax`: index of the first maximal entry (`0` on the empty list). -/
+def npArgmaxFrom {γ : Type} [LT γ] [DecidableLT γ] : γ → Nat → Nat → List γ → Nat
+  | _, bi, _, [] => bi
+  | b, bi, i, x :: xs => if b < x then npArgmaxFrom x i (i + 1) xs else npArgmaxFrom b bi (i + 1) xs
+
+def npArgmax {γ : Type} [LT γ] [DecidableLT γ] : List γ → Nat
+  | [] => 0
+  | x :: xs => npArgmaxFrom x 0 1 xs
+
+theorem npArgmaxFrom_hom (hlt : ∀ x y : β, x < y ↔ E x < E y) :
+    ∀ (xs : List β) (b : β) (bi i : Nat),
+      npArgmaxFrom (E b) bi i (xs.map E) = npArgmaxFrom b bi i xs
+  | [], _, _, _ => rfl
+  | x :: xs, b, bi, i => by
+    simp only [List.map_cons, npArgmaxFrom]
+    by_cases h : b < x
+    · rw [if_pos h, if_pos ((hlt b x).mp h)]; exact npArgmaxFrom_hom hlt xs x i (i + 1)
+    · rw [if_neg h, if_neg (fun h' => h ((hlt b x).mpr h'))]; exact npArgmaxFrom_hom hlt xs b bi (i + 1)
+
 /-- **The log-space operations are the image of the linear ones.** -/
 theorem logOps_hom (h : LogLaws E log negInf) (logB : β → β) (pow : α → α → α) (F : β → α)
     (Pn : α → Prop) (hzero : E (0 : β) = 1) (hlt : ∀ x y : β, x < y ↔ E x < E y)
